@@ -25,6 +25,9 @@ var c06Pairs = [][][2]string{
 	{{"a", "b"}, {"xa", "q"}},
 	{{"ab", "z"}},
 	{{"a", "b"}, {"b", "c"}, {"d", "a"}},
+	{{"a", `"`}},
+	{{"a", `="`}, {"b", `"x`}},
+	{{"b", `"q"`}},
 }
 
 type c06Case struct {
@@ -160,7 +163,7 @@ func c06Cases(maxF int, thorough bool) []c06Case {
 		fs = append(fs, l)
 	})
 	var xsets [][][]string
-	xsets = append(xsets, nil)          // no exclude file (plain include / include-except without files is not valid) -> plain include
+	xsets = append(xsets, nil)            // no exclude file (plain include / include-except without files is not valid) -> plain include
 	xsets = append(xsets, [][]string{{}}) // one empty exclude file
 	for _, w := range c06Words {
 		xsets = append(xsets, [][]string{{w}})
